@@ -77,7 +77,8 @@ def _walk(it, v, depth=0):
 
 
 class LoopSpec:
-    def __init__(self, name, maps, alphabet, E=3, T=0, B=2, W=4, intr=1, faults=False, late=True, note='', C=99, memo=False):
+    def __init__(self, name, maps, alphabet, E=3, T=0, B=2, W=4, intr=1, faults=False, late=True, note='', C=99, memo=False, empty=0):
+        self.empty = empty           # max wake-ups in which a device is readable but its reader finds nothing to report
         self.C = C                   # max genuine time-outs (chords) per path
         self.memo = memo             # subsume configurations at poll entries (idle configurations only)
         self.name = name
@@ -162,6 +163,7 @@ class Env:
         self.ntab = 0
         self.npoll = 0
         self.nintr = 0
+        self.nempty = 0
         self.gone = False
         self.t = z3.IntVal(0)
         self.nclock = 0
@@ -268,6 +270,10 @@ class Env:
             if kleft >= 1 and tleft >= 1:
                 opts.append(('dev', ['K', 'T'], 1, 1))
                 opts.append(('dev', ['T', 'K'], 1, 1))
+            if self.nempty < sp.empty:
+                # the device is readable but holds only records its reader skips (SYN, MSC_SCAN, other switches): Busy at once
+                opts.append(('dev', ['K'], 0, 0))
+                opts.append(('dev', ['T'], 0, 0))
             if (timeout is not None and self.ngenuine < sp.C) or (timeout is None and (sp.memo or self.npoll <= 2)):
                 opts.append(('timeout',))
             if self.nintr < sp.intr:
@@ -277,6 +283,8 @@ class Env:
             opts.append(('gone', 1))
         o = opts[it.choose(len(opts))]
         if o[0] == 'dev':
+            if o[2] == 0 and o[3] == 0:
+                self.nempty += 1
             for _ in range(o[2]):
                 self.new_key_event()
             for _ in range(o[3]):
@@ -770,6 +778,11 @@ def loop_specs(tier, seed):
                       note='C12: tablet on/off anywhere, same wake-up in either device order, while a repeat is pending'))
     S.append(LoopSpec('tablet-layer', [dict(m) for m in layer], K('CAPSLOCK', 'M'), E=3, T=2, B=1, W=5, intr=0, late=False,
                       note='C12: layer key held across tablet mode'))
+    S.append(LoopSpec('tablet-absorbing', [dict(frm=K('LEFTSHIFT', 'L'), to=K('LEFTSHIFT', 'N'), absb=K('LEFTSHIFT'))], K('LEFTSHIFT', 'L'),
+                      E=3, T=2, B=1, W=5, intr=0, late=False,
+                      note='C12: an absorbing chord held (or its modifier absorbed) when tablet mode changes'))
+    S.append(LoopSpec('timer-noise', [dict(A_B), dict(special)], K('D', 'A'), E=2, T=0, B=1, W=5, intr=0, late=False, empty=2,
+                      note='C11: wake-ups in which the keyboard or the tablet switch is readable but yields no event must not disturb a pending repeat'))
     # C20: faults
     S.append(LoopSpec('faults', [dict(A_B), dict(special)], K('A', 'D'), E=2, T=1, B=2, W=3 + d, intr=0, late=False, faults=True,
                       note='C20: a failure injected at each individual driver call in turn'))
@@ -885,7 +898,7 @@ def run(tier, seed):
     native.close()
     out = {
         'tier': tier, 'seed': seed, 'tree': tree_hash(), 'engine': engine_hash(),
-        'specs': [{'name': s.name, 'note': s.note, 'E': s.E, 'T': s.T, 'B': s.B, 'W': s.W, 'intr': s.intr, 'late': s.late, 'faults': s.faults,
+        'specs': [{'name': s.name, 'note': s.note, 'E': s.E, 'T': s.T, 'B': s.B, 'W': s.W, 'intr': s.intr, 'late': s.late, 'faults': s.faults, 'empty_wakeups': s.empty,
                    'layout': mapper.Spec('x', [dict(m) for m in s.maps]).describe(),
                    'alphabet': [mapper.INV.get(k, k) if isinstance(k, int) else '$' + k for k in s.alphabet],
                    'stats': tot[i]} for i, s in spec_map.items()],
@@ -938,9 +951,9 @@ CLAUSES = {
     'C20': 'a failure injected at the k-th driver call (register_poll, poll, next_keyboard, next_tablet, send; every k of every explored schedule) makes the loop return Err with that message and no write follows',
 }
 
-REL = {'C10': ('chunking', 'chunking-foreign', 'burst', 'chunking-long', 'tablet-repeat', 'timer', 'tablet', 'faults', 'timer-chord', 'timer-chord-mapped', 'timer-swallowed', 'tablet-layer'),
-       'C11': ('timer', 'timer-chord', 'timer-chord-mapped', 'timer-swallowed', 'tablet', 'faults', 'tablet-repeat'),
-       'C12': ('tablet', 'tablet-layer', 'faults', 'tablet-repeat'),
+REL = {'C10': ('chunking', 'chunking-foreign', 'burst', 'chunking-long', 'tablet-repeat', 'timer', 'tablet', 'faults', 'timer-chord', 'timer-chord-mapped', 'timer-swallowed', 'tablet-layer', 'tablet-absorbing', 'timer-noise'),
+       'C11': ('timer', 'timer-chord', 'timer-chord-mapped', 'timer-swallowed', 'timer-noise', 'tablet', 'faults', 'tablet-repeat'),
+       'C12': ('tablet', 'tablet-layer', 'tablet-absorbing', 'faults', 'tablet-repeat'),
        'C20': ('faults',)}
 
 
